@@ -73,12 +73,16 @@ def post(buf, body, ctype, what='forms+files', chunked=False, rng=None, max_body
     stream = env['wsgi.input'] = Stream(wire, rng=rng if (rng is not None and rng.random() < 0.5) else None)
     t0 = time.time()
     escaped = False
+    hung = False
     try:
-        status, line, headers, out, n = call_app(app, env)
+        with core.time_limit(time_limit):
+            status, line, headers, out, n = call_app(app, env)
+    except core.Hang:
+        hung, status, out = True, 0, b''
     except Exception as e:   # noqa
         escaped, status, out = True, 0, repr(e).encode()
     dt = time.time() - t0
-    res = {'status': status, 'escaped': escaped, 'hang': dt > time_limit, 'errors': env['wsgi.errors'].getvalue()[-300:],
+    res = {'status': status, 'escaped': escaped, 'hang': hung or dt > time_limit, 'errors': env['wsgi.errors'].getvalue()[-300:],
            'one_piece': (not chunked) and sum(1 for a, g in stream.ev if g) <= 1}
     if status == 200:
         try:
